@@ -234,8 +234,14 @@ func (nfs *Nfs) NFSPROC3_ACCESS(args nfstypes.ACCESS3args) nfstypes.ACCESS3res {
 	defer nfs.recordOp(nfstypes.NFSPROC3_ACCESS, time.Now())
 	var reply nfstypes.ACCESS3res
 	util.DPrintf(1, "NFS Access %v\n", args)
-	reply.Status = nfstypes.NFS3_OK
+	op := fstxn.Begin(nfs.fsstate)
+	ip := op.GetInodeFh(args.Object)
+	if ip == nil {
+		errRet(op, &reply.Status, nfstypes.NFS3ERR_STALE)
+		return reply
+	}
 	reply.Resok.Access = nfstypes.Uint32(nfstypes.ACCESS3_READ | nfstypes.ACCESS3_LOOKUP | nfstypes.ACCESS3_MODIFY | nfstypes.ACCESS3_EXTEND | nfstypes.ACCESS3_DELETE | nfstypes.ACCESS3_EXECUTE)
+	commitReply(op, &reply.Status)
 	return reply
 }
 
